@@ -80,6 +80,17 @@ FEATURES = {
     "exists_simple": ("exists", "z", ("cmp", "lt", A(Z, "b"), A(X, "b"))),
     "forall": ("forall", "z", ("cmp", "ge", A(Z, "a"), A(X, "a"))),
     "forall_or": ("forall", "z", ("or", ("cmp", "ne", A(Z, "a"), A(X, "a")), ("cmp", "eq", A(Z, "b"), A(X, "b")))),
+    # a union-form or_ (operands over different variable sets) inside a quantifier, also under not_
+    "exists_union": ("exists", "z", ("or", ("cmp", "eq", A(X, "b"), L(1)), ("cmp", "eq", A(Z, "a"), L(1)))),
+    "forall_union": ("forall", "z", ("or", ("cmp", "eq", A(X, "a"), L(0)), ("cmp", "eq", A(Z, "b"), L(1)))),
+    "exists_union_right_never": ("exists", "z", ("or", ("cmp", "eq", A(X, "b"), L(1)), ("cmp", "eq", A(Z, "a"), L(5)))),
+    "exists_union_left_never": ("exists", "z", ("or", ("cmp", "eq", A(Z, "a"), L(5)), ("cmp", "eq", A(X, "b"), L(1)))),
+    "forall_union_right_always": ("forall", "z", ("or", ("cmp", "eq", A(X, "a"), L(0)), ("cmp", "ge", A(Z, "b"), L(0)))),
+    "forall_union_right_never": ("forall", "z", ("or", ("cmp", "eq", A(X, "a"), L(0)), ("cmp", "eq", A(Z, "b"), L(7)))),
+    "exists_and_union": ("exists", "z", ("and", ("cmp", "eq", A(Z, "a"), A(X, "a")),
+                                        ("or", ("cmp", "eq", A(X, "b"), L(0)), ("cmp", "eq", A(Z, "b"), L(1))))),
+    "forall_exists": ("forall", "z", ("exists", "w", ("and", ("cmp", "eq", ("attr", ("var", "w"), "a"), A(Z, "a")),
+                                                   ("cmp", "eq", ("attr", ("var", "w"), "b"), A(X, "b"))))),
 }
 
 SELECTIONS = [("entity", (X,)), ("setof", (X, Y)), ("entity", (Y,)), ("entity", (A(X, "a"),)),
@@ -215,17 +226,18 @@ def make_world(dspec):
         items = W.make_items(W.UNIVERSE, falsy=dspec[0] == "D5falsy")
         if dspec[0] == "D5shared":
             shared = list(items)
-            doms = {"x": shared, "y": shared, "z": shared}
+            doms = {"x": shared, "y": shared, "z": shared, "w": shared}
         elif dspec[0] == "D5rev":
-            doms = {"x": list(reversed(items)), "y": list(items), "z": list(items)}
+            doms = {"x": list(reversed(items)), "y": list(items), "z": list(items), "w": list(items)}
         else:
-            doms = {"x": list(items), "y": items[1:] + items[:1], "z": list(items)}
+            doms = {"x": list(items), "y": items[1:] + items[:1], "z": list(items), "w": items[2:] + items[:2]}
     else:
         u = W.make_items([W.UNIVERSE[0], W.UNIVERSE[3], W.UNIVERSE[4]])
         _, mx, my = dspec
         doms = {"x": [o for i, o in enumerate(u) if mx >> i & 1],
                 "y": [o for i, o in enumerate(u) if my >> i & 1],
-                "z": [o for i, o in enumerate(u) if (mx | my) >> i & 1]}
+                "z": [o for i, o in enumerate(u) if (mx | my) >> i & 1],
+                "w": [o for i, o in enumerate(u) if (mx | my) >> i & 1]}
     return eqlfront.std_world(doms)
 
 
